@@ -298,7 +298,7 @@ fn make_case_s(picks: &[usize], extras: Extras, mailbox: Mailbox, early: u32, bo
     let temporaries = matches!(extras, Extras::IntervalWithSlow | Extras::Subscribed);
     let instant_ticks = matches!(extras, Extras::Interval | Extras::TwoIntervals);
     let desc = format!("lifetime mailbox={} extras={:?} early={} stream={} clients={}", mailbox.name(), extras, early, stream, names.join(" | "));
-    let ps = ProgScene {
+    let ps = ProgScene { variant: crate::progscene::current_variant(),
         spawn: SpawnCfg::plain(mailbox),
         attach: if stream {
             Attach::Stream { via: crate::scenes::StreamVia::BuildOnStream, prefill: vec![71], close: false }
